@@ -147,3 +147,56 @@ def gen_setter_history(rng, schema, n_tracks=2, n_ops=30, big=False):
             metas.append({"kind": "set", "t": th, "field": field, "value": val, "excusable": exc})
         last_field = field
     return ops, metas
+
+
+# ---------------------------------------------------------------- mixed library histories
+def gen_library_history(rng, schema, n_ops, rich_tracks=2, hostile=False):
+    """A history that populates a library with richly described tracks, crates and memberships and then
+    interleaves single-field setters, crate operations and membership operations.
+    Returns (ops, metas); metas carry 'kind' as produced by the forest / setter generators."""
+    from . import forest as FO
+    st = FO.GenState(schema)
+    u = Uniq()
+    ops, metas = [], []
+
+    def push(pair):
+        op, meta = pair
+        if op is not None:
+            ops.append(op)
+            metas.append(meta)
+
+    for _ in range(rich_tracks):
+        push(FO.gen_track_create(rng, st, rich=True))
+    for _ in range(3):
+        push(FO.gen_crate_op(rng, st, hostile=False))
+    push(FO.gen_track_create(rng, st))
+    for _ in range(3):
+        push(FO.gen_membership_op(rng, st))
+    waveform_ok = {h: True for h in st.tracks}
+    for _ in range(n_ops):
+        r = rng.random()
+        lt = st.live_tracks()
+        if r < 0.35 and lt:
+            th = rng.choice(lt)
+            field = rng.choice(SETTER_FIELDS + ["hot_cue_at", "loop_at"])
+            if field == "waveform" and not waveform_ok.get(th, False):
+                field = "comment"
+            if field in ("hot_cue_at", "loop_at"):
+                which = "hot_cue" if field == "hot_cue_at" else "loop"
+                idx = rng.randrange(8)
+                val = slot_value(rng, schema, which, u)
+                push(({"op": "set_at", "t": th, "field": which, "index": idx, "value": val},
+                      {"kind": "set_at", "t": th, "field": which, "index": idx, "value": val}))
+            else:
+                val, exc = setter_value(rng, schema, field, u)
+                if field in ("sample_rate", "sample_count"):
+                    waveform_ok[th] = False if (val is None or exc) else waveform_ok.get(th, False)
+                push(({"op": "set", "t": th, "field": field, "value": val},
+                      {"kind": "set", "t": th, "field": field, "value": val}))
+        elif r < 0.65:
+            push(FO.gen_crate_op(rng, st, hostile=hostile))
+        elif r < 0.72:
+            push(FO.gen_track_create(rng, st, rich=rng.random() < 0.5))
+        else:
+            push(FO.gen_membership_op(rng, st))
+    return ops, metas
